@@ -20,7 +20,8 @@ MAX_TRACES = 40000
 
 def new_state():
     return {"pos": ENTRY, "posobjs": {}, "soft": {}, "origin": {}, "children": [],
-            "rewound": False, "m_viol": [], "moved_once": False, "cut": False}
+            "rewound": False, "m_viol": [], "moved_once": False, "cut": False,
+            "dirty": False, "r_viol": []}
 
 
 def errobj(i):
@@ -206,6 +207,7 @@ class TSEngine(tf.Engine):
             if name == "set_position":
                 p = tf.deref(args[1]) if len(args) > 1 else tf.TOP
                 if p[0] == "posobj" and p[1] in ts["posobjs"]:
+                    ts["dirty"] = False
                     if ts["posobjs"][p[1]] == ENTRY:
                         if ts["pos"] == MOVED:
                             ts["rewound"] = True
@@ -223,6 +225,10 @@ class TSEngine(tf.Engine):
             return [(tf.TOP, ts)]
         if ctrait.endswith("parser::Parser") and ctrait.startswith("rusty_pc"):
             if name == "parse":
+                if ts.get("dirty"):
+                    # another child is tried after a child failed, without restoring the position:
+                    # relies on the failed child having restored it (clause R)
+                    ts["r_viol"].append(t.get("ln"))
                 ok_ts = copy.deepcopy(ts)
                 ok_ts["pos"] = MOVED
                 ok_ts["moved_once"] = True
@@ -230,6 +236,7 @@ class TSEngine(tf.Engine):
                 n = self.fresh()
                 e = self.new_error(err_ts, UNKNOWN, ("child", n))
                 err_ts["children"].append(e[1])
+                err_ts["dirty"] = True
                 return [(tf.Tag("core::result::Result", "Ok", [tf.TOP]), ok_ts),
                         (tf.Tag("core::result::Result", "Err", [e]), err_ts)]
             if name == "set_context":
